@@ -21,7 +21,7 @@ struct SyncRun : NodeEnv {
         add_typed(specs, T_SYNCID, 0x1005, 0, CO_OBJ_____RW, cobid); add_typed(specs, T_SYNCCYCLE, 0x1006, 0, CO_OBJ_____RW, cycle);
         add_tpdo(specs, 0, 0x40000181u, tType, 0, 0, {CO_LINK(0x2100, 1, 8)}, false);
         add_u8(specs, 0x2100, 0, CO_OBJ_D___R_, 1); add_u8(specs, 0x2100, 1, CO_OBJ____PRW, 0x5A);
-        NodeCfg cfg; cfg.nodeId = nodeId; cfg.freq = freq; cfg.tmrNum = 8;
+        NodeCfg cfg; cfg.nodeId = nodeId; cfg.freq = freq; cfg.tmrNum = plan.c("tight", 0) ? 1 : 8; if (plan.c("tight", 0)) cov.hit("F15-timer-pool-without-spare-slot");   // tight: the SYNC producer is the only timer user and gets the only slot
         w.build(0, cfg, specs); w.init(0); activate(); w.start(0);
         if (CONodeGetErr(N()) != CO_ERR_NONE) fail("setup/node-error", "node reports an error after initialisation");
     }
@@ -95,7 +95,7 @@ struct SyncRun : NodeEnv {
 };
 
 Plan gen_sync(Rng &r, bool thorough) {
-    Plan p; uint32_t f = r.pick<uint32_t>({1000, 1000, 10000, 100, 2000, 100000, 3000, 1500, 300, 7000}); p.cfg["freq"] = f; uint32_t minus = (f <= 10000 ? (10000 + f - 1) / f : 1) * 100;
+    Plan p; uint32_t f = r.pick<uint32_t>({1000, 1000, 10000, 100, 2000, 100000, 3000, 1500, 300, 7000}); p.cfg["freq"] = f; p.cfg["tight"] = r.chance(1, 4); uint32_t minus = (f <= 10000 ? (10000 + f - 1) / f : 1) * 100;
     auto cyc = [&]() -> int64_t { int c = (int)r.below(10); if (c == 0) return 0; if (c == 1) return (int64_t)r.range(1, (int64_t)minus - 1 > 0 ? (int64_t)minus - 1 : 1); if (c == 2) return minus; if (c == 3) return (int64_t)minus * r.range(1, 50) + (r.chance(1, 3) ? 50 : 0); if (c == 4) return r.pick<int64_t>({7000000, 10000000, 6553600, 6553500}); return (int64_t)minus * r.pick<int64_t>({1, 2, 3, 5, 10, 20, 100}); };
     p.cfg["cobid"] = (r.chance(1, 2) ? 0x40000000ll : 0) | r.pick<int64_t>({0x80, 0x80, 0x90, 0x100}); p.cfg["cycle"] = cyc(); p.cfg["ttype"] = r.range(1, 3);
     int n = (int)r.range(3, thorough ? 50 : 25);
